@@ -19,6 +19,8 @@ const (
 	KNil
 	KFn
 	KExc
+	KNs
+	KUnord // values in an unspecified order (keys of a map)
 )
 
 type varInfo struct {
@@ -27,6 +29,7 @@ type varInfo struct {
 	keys []string
 	n    int // known length for lists (approximation, -1 unknown)
 	fn   *fnInfo
+	mod  string // KNs: the module
 }
 
 type fnInfo struct {
@@ -39,7 +42,8 @@ type fnInfo struct {
 type scope struct {
 	vars  map[string]*varInfo
 	order []string
-	fnLvl bool // scope of a function body (not a control-flow block)
+	fnLvl bool     // scope of a function body (not a control-flow block)
+	undo  []func() // what `tmp` changed in outer scopes: undone when the scope (frame) ends
 }
 
 // Features toggles the constructs the generator may use; they enter together with the
@@ -54,6 +58,9 @@ type Features struct {
 	Pipes    bool // pipelines of value-stream builtins
 	More     bool // further builtins of Appendix B.4
 	Del      bool // del of variables and map elements
+	Cleanup  bool // tmp, with, defer
+	Bytes    bool // echo / print, captured as lines
+	Use      bool // use of in-memory modules, qualified names
 	ErrRate  int  // percent of deliberately ill-kinded expressions
 }
 
@@ -73,6 +80,9 @@ func (f Features) Names() []string {
 	add(f.Pipes, "pipelines")
 	add(f.More, "more-builtins", "exception-fields", "interaction-patterns")
 	add(f.Del, "del")
+	add(f.Cleanup, "tmp", "with", "defer")
+	add(f.Bytes, "byte-output")
+	add(f.Use, "use", "qualified-names")
 	return out
 }
 
@@ -90,6 +100,8 @@ type Gen struct {
 	inTry     int
 	loopVar   map[string]bool
 	dead      map[string]bool
+	Mods      []Module          // the in-memory modules of the current program
+	modInfo   map[string]*scope // module name -> its top-level scope (exports)
 }
 
 func NewGen(seed int64, f Features) *Gen {
@@ -373,6 +385,8 @@ func (g *Gen) multi(k Kind, depth int) *Node {
 			return Cap(g.pipeline(depth - 1))
 		case g.F.XCap && g.chance(6):
 			return XCap(g.capStmt(depth - 1))
+		case g.F.Bytes && g.chance(5):
+			return Cap(Stmt(g.echoForm(depth - 1))) // the lines, as strings
 		case g.F.Logic && g.chance(5):
 			return Cap(Stmt(g.logicForm(depth - 1)))
 		case g.F.Fn && g.chance(3):
@@ -610,6 +624,28 @@ func (g *Gen) Stmt(depth int) []*Node {
 	if g.F.Del {
 		alts = append(alts, alt{3, one(func() *Node { return g.delStmt(depth) })})
 	}
+	if g.F.Bytes {
+		alts = append(alts, alt{6, one(func() *Node { return g.echoStmt(depth) })})
+	}
+	if g.F.More {
+		alts = append(alts, alt{4, func() []*Node { return g.strStmt(depth) }})
+	}
+	if g.F.Use && len(g.Mods) > 0 {
+		alts = append(alts, alt{7, func() []*Node {
+			out := []*Node{g.useStmt(depth)}
+			for i := g.R.Intn(3); i > 0; i-- {
+				out = append(out, g.useStmt(depth))
+			}
+			return out
+		}})
+	}
+	if g.F.Cleanup {
+		alts = append(alts, alt{5, one(func() *Node { return g.tmpStmt(depth) })},
+			alt{4, one(func() *Node { return g.deferStmt(depth) })})
+		if depth > 0 {
+			alts = append(alts, alt{4, one(func() *Node { return g.withStmt(depth) })})
+		}
+	}
 	if g.F.Fn && g.F.More && depth > 0 {
 		alts = append(alts, alt{6, func() []*Node { return g.patternStmt(depth) }})
 	}
@@ -718,7 +754,7 @@ func (g *Gen) setStmt(depth int) *Node {
 	vis := g.visible()
 	var cands []string
 	for _, n := range vis {
-		if vi := g.lookup(n); vi.kind != KFn && !g.loopVar[n] {
+		if vi := g.lookup(n); vi.kind != KFn && vi.kind != KNs && !g.loopVar[n] {
 			cands = append(cands, n)
 		}
 	}
@@ -767,6 +803,36 @@ func (g *Gen) setStmt(depth int) *Node {
 	}
 	*vi = *ni
 	return Stmt(Set([]LV{{N: n}}, 0, e))
+}
+
+// echoStmt: bytes on the byte band: echo / print of strings and numbers
+func (g *Gen) echoForm(depth int) *Node {
+	n := g.R.Intn(3)
+	args := make([]*Node, n)
+	for i := range args {
+		switch g.R.Intn(4) {
+		case 0:
+			args[i] = g.Expr(KNum, depth-1)
+		case 1:
+			args[i] = Str(g.pick([]string{"line1\nline2", "cr\r", "trail\n", "", "x y"}))
+		default:
+			args[i] = g.Expr(KStr, depth-1)
+		}
+	}
+	f := Cmd(g.pick([]string{"echo", "echo", "print"}), args...)
+	if g.chance(20) {
+		f.Opts = []Opt{{"sep", Str(g.pick([]string{",", "", "\n"}))}}
+	}
+	return f
+}
+
+func (g *Gen) echoStmt(depth int) *Node {
+	f := g.echoForm(depth)
+	if g.F.Pipes && g.chance(30) {
+		// the lines are the value inputs of the next command
+		return Pipe(f, g.consumer(depth, KStr))
+	}
+	return Stmt(f)
 }
 
 // delStmt: delete a variable of the current scope, or an element of a map variable
@@ -825,9 +891,16 @@ func (g *Gen) stmts(n, depth int) *Node {
 // Program yields the chunks of one program (evaluated one after the other by one Evaler).
 func (g *Gen) Program(chunks, stmtsPer, depth, fuel int) []*Node {
 	g.fuel = fuel
+	g.fuel = fuel
 	g.scopes = nil
 	g.loopVar = map[string]bool{}
 	g.dead = map[string]bool{}
+	g.Mods, g.modInfo = nil, map[string]*scope{}
+	if g.F.Use && g.chance(45) {
+		for _, name := range []string{"ma", "mb"}[:1+g.R.Intn(2)] {
+			g.module(name, depth)
+		}
+	}
 	g.push(true)
 	out := make([]*Node, 0, chunks)
 	for c := 0; c < chunks; c++ {
